@@ -12,6 +12,7 @@
 # See the License for the specific language governing permissions and
 # limitations under the License.
 
+import re
 from typing import Literal
 
 from . import gates
@@ -22,8 +23,17 @@ class QasmExporter(QCircuitExporter):
     def __init__(self, version=3):
         self.version = version
 
+    @staticmethod
+    def gate_name(_selfqc) -> str:
+        """Name of the declared gate: the circuit name, unless it is one of the mnemonics
+        used in gate bodies (a gate called cx whose body applies cx would call itself)"""
+        name = _selfqc.name
+        while re.fullmatch(r"c*(x|y|z|h|s|t|p|i|swap)", name.lower()):
+            name += "_"
+        return name
+
     def export_v3(self, _selfqc, mode: Literal["circuit", "gate"]):
-        gate_qasm = f"gate {_selfqc.name} "
+        gate_qasm = f"gate {self.gate_name(_selfqc)} "
         gate_qasm += " ".join(
             _selfqc.get_key_by_index(i) for i in range(_selfqc.num_qubits)
         )
@@ -45,7 +55,7 @@ class QasmExporter(QCircuitExporter):
         qasm = "OPENQASM 3.0;\n\n"
         qasm += gate_qasm
         qasm += (
-            _selfqc.name
+            self.gate_name(_selfqc)
             + " "
             + ",".join(map(lambda c: f"q[{c}]", range(_selfqc.num_qubits)))
             + ";\n"
@@ -54,7 +64,7 @@ class QasmExporter(QCircuitExporter):
         return qasm
 
     def export_v2(self, _selfqc, mode: Literal["circuit", "gate"]):
-        gate_qasm = f"gate {_selfqc.name} "
+        gate_qasm = f"gate {self.gate_name(_selfqc)} "
         gate_qasm += " ".join(
             _selfqc.get_key_by_index(i) for i in range(_selfqc.num_qubits)
         )
@@ -78,7 +88,7 @@ class QasmExporter(QCircuitExporter):
         qasm += "qreg q[" + str(_selfqc.num_qubits) + "];\n"
         qasm += gate_qasm
         qasm += (
-            _selfqc.name
+            self.gate_name(_selfqc)
             + " "
             + ",".join(map(lambda c: f"q[{c}]", range(_selfqc.num_qubits)))
             + ";\n"
